@@ -219,7 +219,7 @@ Proof.
     induction H as [|x r Hx Hrr IH]; [exact I|]. destruct Hr as [R1 R2]. destruct Hk as [K1 K2]. split; eauto.
   - cbn [rok lbk lbc] in *. eauto.
   - cbn [rok lbk lbc] in *. destruct Hr as [R1 R2]. destruct Hk as [K1 K2]. split; [eauto|]. intros Hb. split; auto.
-  - cbn [rok lbk lbc] in *. destruct Hr as [R1 R2]. eauto.
+  - cbn [rok lbk lbc] in *. eauto.
   - cbn [rok lbk lbc] in *. eauto.
   - cbn [rok lbk lbc] in *. destruct b; [|contradiction]. destruct Hr as (R1 & R2 & R3). destruct Hk as (K1 & K2 & K3).
     repeat split; eauto.
